@@ -7,6 +7,38 @@ import sys
 _log = []
 _active = [False]
 _installed = [False]
+_scope = [None]   # ids of the objects that belong to the model under watch (None = every object)
+
+
+def reachable_ids(model):
+    ids = set()
+    ids.add(id(model))
+    stack = [model.root]
+    while stack:
+        f = stack.pop()
+        if f is None or id(f) in ids:
+            continue
+        ids.add(id(f))
+        ids.add(id(f.feature_cardinality))
+        for a in f.attributes:
+            ids.add(id(a))
+            if a.domain is not None:
+                ids.add(id(a.domain))
+                ids.update(id(r) for r in a.domain.range_list)
+        for r in f.relations:
+            ids.add(id(r))
+            stack.extend(r.children)
+    for c in model.ctcs:
+        ids.add(id(c))
+        ids.add(id(c.ast))
+        ns = [c.ast.root]
+        while ns:
+            n = ns.pop()
+            if n is None or id(n) in ids:
+                continue
+            ids.add(id(n))
+            ns.extend([n.left, n.right])
+    return ids
 
 
 def install():
@@ -20,7 +52,7 @@ def install():
         orig = cls.__setattr__
 
         def hooked(self, name, value, _orig=orig, _cls=cls.__name__):
-            if _active[0]:
+            if _active[0] and (_scope[0] is None or id(self) in _scope[0]):
                 try:
                     old = self.__dict__.get(name, "<unset>")
                 except Exception:  # noqa: BLE001
@@ -34,13 +66,18 @@ def install():
 
 
 class window:
+    def __init__(self, model=None):
+        self.model = model
+
     def __enter__(self):
         install()
         del _log[:]
+        _scope[0] = reachable_ids(self.model) if self.model is not None else None
         _active[0] = True
         return self
 
     def __exit__(self, *a):
         _active[0] = False
+        _scope[0] = None
         self.writes = list(_log)
         return False
